@@ -127,7 +127,7 @@ func (s *state) walk(node ast.Node) {
 	case *ast.IfNode:
 		for _, cond := range node.Conds {
 			if cond.Cond == nil || s.eval(cond.Cond).Truthy() {
-				s.walk(cond.Body)
+				s.walkBlock(cond.Body)
 				break
 			}
 		}
@@ -139,34 +139,35 @@ func (s *state) walk(node ast.Node) {
 		}
 		if len(list) == 0 {
 			if node.IfEmpty != nil {
-				s.walk(node.IfEmpty)
+				s.walkBlock(node.IfEmpty)
 			}
 			break
 		}
-		s.context.push()
 		var (
 			keyVar  = node.Var
 			keyInd  = node.Var + "__index"
 			keyLast = node.Var + "__lastIndex"
 		)
-		s.context.set(keyLast, data.Int(len(list)-1))
 		for i, item := range list {
+			// each iteration is a block of its own.
+			s.context.push()
+			s.context.set(keyLast, data.Int(len(list)-1))
 			s.context.set(keyVar, item)
 			s.context.set(keyInd, data.Int(i))
 			s.walk(node.Body)
+			s.context.pop()
 		}
-		s.context.pop()
 	case *ast.SwitchNode:
 		var switchValue = s.eval(node.Value)
 		for _, caseNode := range node.Cases {
 			for _, caseValueNode := range caseNode.Values {
 				if switchValue.Equals(s.eval(caseValueNode)) {
-					s.walk(caseNode.Body)
+					s.walkBlock(caseNode.Body)
 					return
 				}
 			}
 			if len(caseNode.Values) == 0 { // default/last case
-				s.walk(caseNode.Body)
+				s.walkBlock(caseNode.Body)
 				return
 			}
 		}
@@ -541,9 +542,17 @@ func (s *state) renderBlock(node ast.Node) []byte {
 	var buf bytes.Buffer
 	origWriter := s.wr
 	s.wr = &buf
-	s.walk(node)
+	s.walkBlock(node)
 	s.wr = origWriter
 	return buf.Bytes()
+}
+
+// walkBlock executes the given node as a block: variables it introduces with
+// {let} are visible only within it.
+func (s *state) walkBlock(node ast.Node) {
+	s.context.push()
+	s.walk(node)
+	s.context.pop()
 }
 
 func checkNumArgs(allowedNumArgs []int, numArgs int) bool {
